@@ -10,8 +10,9 @@ lean/DriverC12.lean (commands AG, EX):
     `Clifford.to_circuit("AG04")` (names, qubits, order); the real returned circuit, executed by
     the real Clifford backend, must give back the tableau (theorem T12_to_circuit_reproduces_tableau)
     and, executed by the state-vector spec, the same state up to a global phase; the object must
-    not be mutated and a second call must return the same list.  BM20 (n <= 3) is compared end to
-    end only (state / tableau), it is not modelled.
+    not be mutated and a second call must return the same list.  The model of `to_circuit("BM20")`
+    (cost functions, cost-reduction search, local part) is compared in the same way for n <= 3,
+    on the whole 2-qubit Clifford group in the thorough tier (a sample in the quick tier).
   * accept: circuits mixing flagged and unflagged gates (rotations at boundary angles, controlled
     rotations at odd multiples of pi/2, gates without engine operation, measurements with and
     without collapse, Pauli noise channels, initial states): the real backend must answer exactly
@@ -150,6 +151,61 @@ def synth_correspondence(ctx, base):
             ctx.log(f"AG04 gate list differs from the model for n={n} {descr}: real {real_gates} / model {model_gates}")
     ctx.ob("C12_corr_synth", bad == 0, "correspondence", f"{bad} gate lists of {len(cases)} differ from the model" if bad else f"{len(cases)} tableaux, same gate list")
     ctx.ob("C12_search_to_circuit_AG04", bad_prop == 0, "search", f"{bad_prop} tableaux not reproduced" if bad_prop else "")
+    return cases
+
+
+def bm20_of(T, be):
+    """real `to_circuit("BM20")` on a fresh object: (gate list | 'RAISES:<type>', reproduces?, circuit)."""
+    from qibo.quantum_info.clifford import Clifford
+
+    n = (T.shape[1] - 1) // 2
+    try:
+        obj = Clifford(np.array(T, copy=True), engine="numpy")
+        c2 = obj.to_circuit("BM20")
+    except Exception as e:  # noqa: BLE001
+        return f"RAISES:{type(e).__name__}", None, None
+    try:
+        T2 = np.asarray(be.execute_circuit(c2).symplectic_matrix).astype(np.uint8) if c2.queue else np.asarray(be.zero_state(n)).astype(np.uint8)
+        ok = c2.nqubits == n and np.array_equal(T2[:-1], T[:-1]) and np.array_equal(np.asarray(obj.symplectic_matrix).astype(np.uint8), T) and all(g.clifford for g in c2.queue)
+    except Exception:  # noqa: BLE001
+        ok = False
+    return gates_str(c2.queue), ok, c2
+
+
+def bm20_correspondence(ctx, base, cases):
+    """the model of `to_circuit("BM20")` against the real one on the tableaux with n <= 3 (+ refusal for n = 4)."""
+    be = base.cliff_backend()
+    small = [(n, gs, T, tag) for n, gs, T, tag in cases if n <= 3]
+    four = [(n, gs, T, tag) for n, gs, T, tag in cases if n == 4][:3]
+    sel = small + four
+    outs = run_driver([f"BM {n} {base.tab_tokens(T)}" for n, _, T, _ in sel], driver=DRIVER)
+    bad = bad_prop = 0
+    for (n, gs, T, tag), out in zip(sel, outs):
+        ctx.case(("bm20", n, T[:-1].tobytes()))
+        real, ok, c2 = bm20_of(T, be)
+        model = out.split(" | ")[0].strip()
+        descr = [base.gate_src(g) for g in gs]
+        src = base.HEAD + f"T = np.array({T.tolist()}, dtype=np.uint8)\nbe = CliffordBackend('numpy')\n" \
+            "c2 = Clifford(T.copy(), engine='numpy').to_circuit('BM20')\nr2 = be.execute_circuit(c2).symplectic_matrix if c2.queue else be.zero_state(c2.nqubits)\n" \
+            "assert np.array_equal(np.asarray(r2).astype(int)[:-1], T[:-1]), np.asarray(r2).astype(int).tolist()\n"
+        if n > 3:
+            ctx.stat("bm20_n4")
+            if not (real == "RAISES:ValueError" and model == "RAISES"):
+                bad += 1
+            continue
+        if out.strip() != "RAISES":
+            ctx.stat(f"bm20_cost{out.split(' | ')[2].strip()}_n{n}")
+        same_state = True
+        if ok and gs and c2 is not None:
+            same_state = up_to_phase(base.sv_state(n, list(c2.queue)), base.sv_state(n, gs))
+        if real != model:
+            bad += 1
+        if not ok or not same_state:
+            bad_prop += 1
+            ctx.fail("to_circuit:BM20:gates", f"to_circuit('BM20') of the tableau of {descr} raises or does not reproduce the tableau / state: {str(real)[:200]}",
+                     src, expected=base.tab_tokens(T[:-1]), observed=str(real)[:300], broken=["C12_search_to_circuit_BM20", "C12_corr_synth_BM20"])
+    ctx.ob("C12_corr_synth_BM20", bad == 0, "correspondence", f"{bad} gate lists of {len(sel)} differ from the model" if bad else f"{len(sel)} tableaux, same gate list")
+    ctx.ob("C12_search_to_circuit_BM20", bad_prop == 0, "search", f"{bad_prop} tableaux not reproduced" if bad_prop else "")
 
 
 def two_qubit_group(base):
@@ -185,8 +241,9 @@ def group_suite(ctx, base):
         tabs = ctx.rng.sample(tabs, 400)
     lines = [f"AG 2 {base.tab_tokens(T)}" for T in tabs]
     outs = run_driver(lines, driver=DRIVER)
+    outs_bm = run_driver([f"BM 2 {base.tab_tokens(T)}" for T in tabs], driver=DRIVER)
     bad_corr = bad_ag = bad_bm = 0
-    for T, out in zip(tabs, outs):
+    for T, out, out_bm in zip(tabs, outs, outs_bm):
         ctx.case(("group2", T[:-1].tobytes()))
         head = base.HEAD + f"T = np.array({T.tolist()}, dtype=np.uint8)\nbe = CliffordBackend('numpy')\n"
         for alg in ("AG04", "BM20"):
@@ -199,7 +256,7 @@ def group_suite(ctx, base):
                 lst = gates_str(c2.queue)
             except Exception as e:  # noqa: BLE001
                 ok, lst = False, f"{type(e).__name__}: {e}"
-            if alg == "AG04" and lst != out.split(" | ")[0].strip():
+            if lst != (out if alg == "AG04" else out_bm).split(" | ")[0].strip():
                 bad_corr += 1
             if not ok:
                 if alg == "AG04":
@@ -209,7 +266,7 @@ def group_suite(ctx, base):
                 ctx.fail(f"to_circuit:{alg}:group2", f"to_circuit({alg!r}) of the 2-qubit tableau {base.tab_tokens(T[:-1])} does not reproduce it: {lst[:200]}",
                          head + f"c2 = Clifford(T.copy(), engine='numpy').to_circuit({alg!r})\nr2 = be.execute_circuit(c2).symplectic_matrix if c2.queue else be.zero_state(2)\n"
                          "assert np.array_equal(np.asarray(r2).astype(int)[:-1], T[:-1]), np.asarray(r2).astype(int).tolist()\n",
-                         expected=base.tab_tokens(T[:-1]), broken=["C12_search_group2_" + alg] + (["C12_corr_synth_group2"] if alg == "AG04" else []))
+                         expected=base.tab_tokens(T[:-1]), broken=["C12_search_group2_" + alg, "C12_corr_synth_group2"])
     ctx.ob("C12_corr_synth_group2", bad_corr == 0, "correspondence", f"{bad_corr} gate lists differ from the model" if bad_corr else f"{len(tabs)} two-qubit tableaux")
     ctx.ob("C12_search_group2_AG04", bad_ag == 0, "search", "")
     ctx.ob("C12_search_group2_BM20", bad_bm == 0, "search", "")
@@ -446,6 +503,7 @@ def accept_correspondence(ctx, base):
 
 
 def run_suites(ctx, base):
-    synth_correspondence(ctx, base)
+    cases = synth_correspondence(ctx, base)
+    bm20_correspondence(ctx, base, cases)
     group_suite(ctx, base)
     accept_correspondence(ctx, base)
